@@ -299,9 +299,11 @@ def run(pid, tier, seed):
     os.makedirs(log_dir, exist_ok=True)
     import parse_props
     if pid == "C11":
-        # only the parser (incan_syntax) is needed
-        say(f"[{pid}] E2-X: dumping the MIR of incan_syntax from {common.REPO}")
+        say(f"[{pid}] E2-X: dumping the MIR of incan_syntax and incan from {common.REPO}")
         obs = parse_props.build(pid, tier, log_dir)
+        P, R = load(log)
+        import tc_props
+        obs += tc_props.build(pid, P, R, tier, log_dir)
     else:
         say(f"[{pid}] E2-X: dumping whole-crate MIR of incan from {common.REPO}")
         P, R = load(log)
